@@ -302,6 +302,37 @@ func c13Store(l *Lab, rep *Report, idp *IdP, store string) {
 			}
 		}
 	}
+	// ---- a callback URL that completed one browser's login is requested again by another browser
+	// (same state, same code): the state is used up and the IdP refuses the code
+	for i := 0; i < l.Pick(3, 12); i++ {
+		b1 := NewBrowser(a.gw, "")
+		state, _, err := b1.BeginLogin("")
+		if err != nil || state == "" {
+			continue
+		}
+		code := idp.NewCode(CodeSpec{User: fmt.Sprintf("first-browser-%d", i)})
+		cbPath := "/callback?state=" + url.QueryEscape(state) + "&code=" + url.QueryEscape(code)
+		if r, err := b1.Do("GET", cbPath, nil); err != nil || r.Status != 302 {
+			rep.Inconclusive("callback replay probe: first login did not complete")
+			continue
+		}
+		for _, second := range []string{"fresh browser", "browser with its own pending login"} {
+			b2 := NewBrowser(a.gw, "")
+			if second != "fresh browser" {
+				b2.BeginLogin("")
+			}
+			r2, err := b2.Do("GET", cbPath, nil)
+			if err != nil {
+				continue
+			}
+			ok, user, st, _ := c13Authenticated(b2)
+			rep.Eval(HashStr(store, "callback-url-replayed", second, r2.Status, ok))
+			rep.Count("callback_url_replays", 1)
+			if ok {
+				rep.Violate("C13/authenticated-by-replayed-callback/"+store, fmt.Sprintf("a %s requested the callback URL that had completed another browser's login (status %d) and is authenticated as %q (/connect %d)", second, r2.Status, user, st), nil)
+			}
+		}
+	}
 	// ---- concurrent sessions: visitors who never log in and users logging in at the same time
 	c13Concurrent(l, rep, a, idp, store)
 	// ---- cookie integrity
